@@ -998,6 +998,7 @@ class Engine(object):
         self.dirs['svc'] = os.path.join(self.svc_dir, 'vips')
         impl.initialize(self.svc_dir)
         expected = dict(self.model['svc'])
+        errors0 = self._errors()
         # _check_requests: dangling request links are removed
         valid = []
         for name in sorted(os.listdir(self.svc_rsrc)):
@@ -1019,13 +1020,30 @@ class Engine(object):
             self.count('gc.svc.mixed')
         elif stale:
             self.count('gc.svc.uniform')
-        impl.synchronize()
+        crashed = False
+        try:
+            impl.synchronize()
+        except Exception:  # pylint: disable=broad-except
+            # Seen on the unchanged tree: a replayed create that failed in
+            # the device commands leaves a device record without
+            # 'environment' and synchronize() raises KeyError.  The service
+            # process dies (its supervisor starts it again: next 'restart').
+            # Not an ownership matter, but only excusable after a failed
+            # command in this very start-up.
+            if self._errors() == errors0:
+                raise
+            crashed = True
+            self.svc = None
+            self.count('svc.run.crashed-in-synchronize')
         # granted addresses of valid requests stay, addresses without a
-        # valid request go, loose addresses of valid requests: either
+        # valid request go (unless the service died first), loose
+        # addresses of valid requests: either
         after = read_links(self.dirs['svc'])
         final = {}
         for addr, own in expected.items():
             if own not in valid:
+                if crashed and addr in after:
+                    final[addr] = own
                 continue
             if addr in self.svc_loose and addr not in after:
                 self.count('svc.sync.loose-reclaimed')
